@@ -49,14 +49,29 @@ pub fn jobs(ctx: &Ctx) -> Vec<RJob> {
         let mut spec = Spec { margin: Some(margin), image: Some("logo.png".into()), image_bg_shape: Some(rng.below(3)), ..Default::default() };
         let which = 1 + rng.below(7); // at least one override
         if which & 1 != 0 {
-            spec.image_size = Some(real(&mut rng, 1.0, size * 0.5));
+            spec.image_size = Some(if rng.chance(1, 10) { [0.5, 1.0, 2.0, size][rng.below(4)] } else { real(&mut rng, 1.0, size * 0.5) });
         }
         if which & 2 != 0 {
-            spec.image_gap = Some(real(&mut rng, 0.5, 6.0));
+            // boundary requests are requests too: a gap of exactly 0 (frame == image), tiny gaps
+            spec.image_gap = Some(match rng.below(8) {
+                0 => 0.0,
+                1 => [0.01, 0.25, 0.5, 1.0][rng.below(4)],
+                _ => real(&mut rng, 0.0, 6.0),
+            });
         }
         if which & 4 != 0 {
             let s = size + 2.0 * margin as f64;
-            spec.image_position = Some((real(&mut rng, s * 0.25, s * 0.75), real(&mut rng, s * 0.25, s * 0.75)));
+            let mut coord = |rng: &mut Rng| match rng.below(12) {
+                0 => 0.0,
+                1 => s,
+                2 => margin as f64,
+                3 => s / 2.0,
+                4 | 5 => real(rng, 0.0, s),
+                _ => real(rng, s * 0.25, s * 0.75),
+            };
+            let x = coord(&mut rng);
+            let y = coord(&mut rng);
+            spec.image_position = Some((x, y));
         }
         out.push(RJob { job, spec });
     }
@@ -184,6 +199,14 @@ pub fn observe(_ctx: &Ctx, st: &mut Stats, rj: &RJob, widths: Option<&Widths>) {
             return fail(st, "position-not-honoured", format!("frame centre ({}, {}), requested ({cx}, {cy})", fx + fw / 2.0, fy + fh / 2.0));
         }
         st.count("override_frames_checked", 1);
+        if rj.spec.image_gap == Some(0.0) {
+            st.count("override_zero_gap_requests", 1);
+        }
+        if let Some((x, y)) = rj.spec.image_position {
+            if x == 0.0 || y == 0.0 {
+                st.count("override_positions_on_the_origin_axes", 1);
+            }
+        }
         st.reach("override_shapes", (rj.spec.image_size.is_some() as u64) | (rj.spec.image_gap.is_some() as u64) << 1 | (rj.spec.image_position.is_some() as u64) << 2);
     }
     st.distinct(mix(rj.job.key(&cfg.input), oracle::rng::fnv(rj.spec.describe().as_bytes())));
@@ -209,7 +232,7 @@ pub fn run(ctx: &Ctx) -> Report {
     st.count("version_to_version_width_comparisons", mono);
     let mut rep = Report::new(
         st,
-        "jobs = all 40 versions x 3 frame shapes x margins 0..=16 with default placement (2040 cases, enumerated completely) + sampled real-valued overrides (size in [1, size/2], gap in [0.5, 6], position in the middle half; integers, halves, 2-decimals and arbitrary reals; all 7 non-empty subsets of {size, gap, position}); the frame <rect> and <image> are read from the parsed XML tree and the statement is checked directly: centred, integer edges, side < 40% and clear of the three finder squares, non-decreasing in the version, image square/centred/not larger (defaults); requested size (2 decimals), frame-image in [2gap-1, 2gap], frame centred on the requested position (overrides); distinct key = (qr options, spec); every case non-trivial",
+        "jobs = all 40 versions x 3 frame shapes x margins 0..=16 with default placement (2040 cases, enumerated completely) + sampled real-valued overrides (size in [1, size/2] plus {0.5, 1, 2, size}, gap in [0, 6] incl. exactly 0 and tiny gaps, position anywhere in [0, S] incl. 0, S, margin, S/2; integers, halves, 2-decimals and arbitrary reals; all 7 non-empty subsets of {size, gap, position}); the frame <rect> and <image> are read from the parsed XML tree and the statement is checked directly: centred, integer edges, side < 40% and clear of the three finder squares, non-decreasing in the version, image square/centred/not larger (defaults); requested size (2 decimals), frame-image in [2gap-1, 2gap], frame centred on the requested position (overrides); distinct key = (qr options, spec); every case non-trivial",
     );
     rep.exhaustive = Some(true);
     rep.expected_sets = vec![("default_cells", 2040), ("override_shapes", 7)];
